@@ -302,6 +302,155 @@ def bulk_reject_pass(ctx):
                 return
 
 
+def single_reject_pass(ctx):
+    """a never-set single-valued feature is still never set after a write to it was refused: it reads as its default,
+    eIsSet is false and a save writes what it wrote before — whatever the type and the path of the refused write"""
+    import io
+    from pyecore import ecore as E
+    from pyecore.resources import ResourceSet, URI
+    from pyecore.resources.xmi import XMIResource, XMIOptions
+    from pyecore.resources.json import JsonResource, JsonOptions
+    n = 40 if ctx.quick() else 600
+    for h in range(n):
+        rng = common.sub_rng(ctx.seed, 'C15', 'single-reject', h)
+        pk = E.EPackage('p', 'http://verif/c15r', 'p')
+        A, Other = E.EClass('A'), E.EClass('Other')
+        En = E.EEnum('En', literals=['RED', 'GREEN'])
+        pk.eClassifiers.extend([A, Other, En])
+        decl = {'count': (E.EAttribute('count', E.EInt), 'seven'), 'name': (E.EAttribute('name', E.EString), 7),
+                'flag': (E.EAttribute('flag', E.EBoolean), 'yes'), 'color': (E.EAttribute('color', En), 'BLUE'),
+                'lit': (E.EAttribute('lit', E.EInt, defaultValueLiteral='5'), 1.5),
+                'friend': (E.EReference('friend', A), None), 'kid': (E.EReference('kid', A, containment=True), None)}
+        A.eStructuralFeatures.extend([d[0] for d in decl.values()])
+        a, bystander = A(), A()
+        fname = rng.choice(list(decl))
+        f, bad = decl[fname]
+        if bad is None:
+            bad = Other()
+        how = rng.choice(['attr', 'eSet-name', 'eSet-feature', 'Set-command'])
+
+        def saved(x):
+            out = []
+            for cls, opts in ((XMIResource, {XMIOptions.SERIALIZE_DEFAULT_VALUES: True}), (XMIResource, None),
+                              (JsonResource, {JsonOptions.SERIALIZE_DEFAULT_VALUES: True})):
+                r = cls(URI('mem'))
+                r.append(x)
+                buf = io.BytesIO()
+                r.save(output=_Out(buf), options=opts)
+                out.append(buf.getvalue())
+                r.remove(x)
+            return out
+        before = saved(a)
+        default = a.eGet(f)
+        raised = None
+        try:
+            if how == 'attr':
+                setattr(a, fname, bad)
+            elif how == 'eSet-name':
+                a.eSet(fname, bad)
+            elif how == 'eSet-feature':
+                a.eSet(f, bad)
+            else:
+                from pyecore.commands import Set, CommandStack
+                CommandStack().execute(Set(a, fname, bad))
+        except Exception as e:
+            raised = type(e).__name__
+        ctx.evaluations += 1
+        ctx.count(f'single-reject/{how}')
+        if raised is None:
+            continue      # (C03's business)
+        ctx.nontriv(('single-reject', h))
+        problems = []
+        if a.eIsSet(f):
+            problems.append('eIsSet is now true')
+        now = a.eGet(f)
+        if not (now is default or now == default):
+            problems.append(f'it reads {now!r}, the default is {default!r}')
+        if before is not None:
+            try:
+                after = saved(a)
+            except Exception as e:
+                after = f'save raised {type(e).__name__}'
+            if after != before:
+                problems.append('a save writes something else than before the refused write')
+        if problems:
+            ctx.violate({'clause': 'default-after-rejected-write', 'trigger': 'none'},
+                        f'never-set {fname} after a refused write ({how}, {raised}): ' + '; '.join(problems),
+                        {'single_reject': True, 'case': h, 'feature': fname, 'how': how})
+            return
+
+
+def _Out(buf):
+    """an output URI over a buffer"""
+    from pyecore.resources import URI
+
+    class Out(URI):
+        def create_outstream(self):
+            return buf
+
+        def close_stream(self):
+            pass
+    buf.close = lambda: None
+    return Out('mem-out')
+
+
+def retype_pass(ctx):
+    """the declared default of an attribute without literal and without explicit default is its *type's* default — the
+    type it has now: retyped attributes, and enumerations whose default literal was changed after the attribute was
+    declared"""
+    from pyecore import ecore as E
+    types = [E.EInt, E.EString, E.EBoolean, E.EDouble, E.EIntegerObject, E.EStringToStringMapEntry]
+    n = 40 if ctx.quick() else 600
+    for h in range(n):
+        rng = common.sub_rng(ctx.seed, 'C15', 'retype', h)
+        A = E.EClass('A')
+        t1, t2 = rng.sample(types, 2)
+        use_enum = rng.random() < .3
+        En = E.EEnum('En', literals=['P', 'Q', 'R'])
+        y = E.EAttribute('y', En if use_enum else t1)
+        when = rng.choice(['before-join', 'after-join', 'after-instance'])
+        old = None
+        if when == 'before-join':
+            pass
+        else:
+            A.eStructuralFeatures.append(y)
+        if when == 'after-instance':
+            old = A()
+        if use_enum:
+            En.default_value = En.getEEnumLiteral(rng.choice(['Q', 'R']))
+            expect = En.default_value
+            what = f'enum default changed to {expect}'
+        else:
+            y.eType = t2
+            expect = t2.default_value
+            what = f'retyped {t1.name} -> {t2.name}'
+        if when == 'before-join':
+            A.eStructuralFeatures.append(y)
+        fresh = A()
+        ctx.evaluations += 1
+        ctx.count(f'retype/{when}')
+        ctx.nontriv(('retype', h))
+        problems = []
+        try:
+            got = fresh.y
+            if not (got is expect or (got == expect and type(got) is type(expect))):
+                problems.append(f'a fresh instance reads {got!r}, the type default is {expect!r}')
+            if fresh.eIsSet('y'):
+                problems.append('reading set the feature')
+            if not use_enum and t2 is not E.EStringToStringMapEntry:
+                fresh.y = {E.EInt: 3, E.EString: 's', E.EBoolean: True, E.EDouble: 1.5, E.EIntegerObject: 4}[t2]
+                del fresh.y
+                got = fresh.y
+                if not (got is expect or got == expect):
+                    problems.append(f'after del it reads {got!r}')
+        except Exception as e:
+            problems.append(f'raised {type(e).__name__}: {e}')
+        if problems:
+            ctx.violate({'clause': 'default-of-current-type', 'trigger': 'none'}, f'{what} ({when}): ' + '; '.join(problems),
+                        {'retype': True, 'case': h, 'what': what, 'when': when})
+            return
+
+
 def run(ctx):
     common.use_repo()
     n = 500 if ctx.quick() else 8000
@@ -317,6 +466,8 @@ def run(ctx):
     for h in range(n // 5):
         run_case(ctx, h, True, model_in, expect, nops)
     bulk_reject_pass(ctx)
+    single_reject_pass(ctx)
+    retype_pass(ctx)
     out = common.run_driver('dflt', model_in)
     bad = set()
     for line, exp, got in zip(model_in, expect, out):
